@@ -155,6 +155,14 @@ class Ctx:
         Each element of ``exprs`` is a Gallina term; it is evaluated with vm_compute and the
         printed normal form is returned as one whitespace-normalised string per expression.
         Sharded over several coqc processes."""
+        # the modules the cases import must be up to date with their sources (they need not be dependencies of the
+        # property file that was built): make them first
+        mods = sorted(set(m.replace(".", "/") + ".vo" for m in re.findall(r"\bJV\.([A-Za-z0-9_]+(?:\.[A-Za-z0-9_]+)+)", requires)))
+        mods = [m for m in mods if os.path.exists(os.path.join(COQ, m[:-1]))]
+        if mods:
+            ok, log = self.coq_build(mods)
+            if not ok:
+                raise RuntimeError("could not build %s:\n%s" % (mods, log[-2000:]))
         shards = [exprs[i:i + shard] for i in range(0, len(exprs), shard)] or [[]]
         procs = []
         for k, sh in enumerate(shards):
